@@ -155,6 +155,7 @@ impl Harness for Homology {
             RingSel::Gauss => self.check::<I, GaussInt<I>>(xs),
             RingSel::Eisen => self.check::<I, EisenInt<I>>(xs),
             RingSel::Q => self.check::<I, yui::Ratio<I>>(xs),
+            RingSel::ZH => unreachable!(),
         }
     }
 }
